@@ -25,4 +25,5 @@ os.environ["VERIF_NO_INLINE"] = "1"
 from rules import core, hir, inline      # noqa: E402
 F = core.Facts(d)
 json.dump(inline.summaries_of(F, names), open(os.path.join(HERE, "rules", "known_summaries.json"), "w"), indent=0)
+json.dump(sorted(c["path"] for c in d["consts"]), open(os.path.join(HERE, "rules", "known_consts.json"), "w"), indent=0)
 print(len(names), "functions frozen")
